@@ -154,8 +154,15 @@ Proof. exact C12_paths_agree_in_context_proof. Qed.
 Theorem C12_paths_agree : forall N env fu c1 c2 tpl nm args,
   c12_in N b#"loop" = true -> c12_env_ok N env ->
   c12_agree_mod N (ts_sibling_macros env tpl) c1 c2 ->
+  (* defaults are evaluated in the caller's context: those of the called macro look up no macro of its template *)
+  (forall params body, ts_find_macro env tpl nm = Some (params, body) ->
+     c12_params_ok (c12_minus N (ts_sibling_macros env tpl)) params = true) ->
   ev_call_macro (eval fu env) (render fu env) env c1 tpl nm args = ev_call_macro (eval fu env) (render fu env) env c2 tpl nm args.
 Proof. exact C12_paths_agree_proof. Qed.
+
+(* the hypothesis on the environment is decidable *)
+Theorem C12_selfcontained_decidable : forall N env, c12_env_okb N env = true -> c12_env_ok N env.
+Proof. exact c12_env_okb_sound. Qed.
 
 (* the three repaired defects (witnesses of the former refutations): all five paths, same output *)
 Theorem C12_sibling_call_all_paths :
@@ -303,6 +310,13 @@ Example C12_example_effects :
   fst (render_template 40 (MkEnv [(b#"t", c12_x_effects)] [] [] [] None) b#"t" []) = Ok b#"89in|outI".
 Proof. vm_compute. reflexivity. Qed.
 
+(* the hypotheses of C12_paths_agree are satisfiable: the library whose macro b calls its sibling a, with the five
+   main templates, is self-contained over the names it looks up *)
+Example C12_example_selfcontained :
+  c12_env_okb [b#"loop"; b#"x"; b#"y"; b#"a"; b#"n"] (c12_five_env c12_w_sibling b#"b" [ELit (LInt 1)]) = true /\
+  c12_env_okb [b#"loop"; b#"p"; b#"q"; b#"r"; b#"a"; b#"b"; b#"c"; b#"n"] (c12_five_env c12_x_sig b#"m" []) = true.
+Proof. vm_compute. split; reflexivity. Qed.
+
 Print Assumptions C12_binding.
 Print Assumptions C12_binding_cases.
 Print Assumptions C12_binding_lookup.
@@ -317,6 +331,7 @@ Print Assumptions C12_forms_evaluate_alike.
 Print Assumptions C12_call_printed.
 Print Assumptions C12_paths_agree_in_context.
 Print Assumptions C12_paths_agree.
+Print Assumptions C12_selfcontained_decidable.
 Print Assumptions C12_sibling_call_all_paths.
 Print Assumptions C12_parameter_named_like_macro_all_paths.
 Print Assumptions C12_macro_named_like_function_all_paths.
